@@ -22,7 +22,7 @@ SPEC = os.path.join(C.VERIF, "spec", "tooltext")
 HARNESS = os.path.join(C.VERIF, "harness", "c17")
 JAVA = "-Xss256m -XX:ParallelGCThreads=2 -Xmx4g"   # several TLC instances run side by side
 JAVA_QUICK = JAVA + " -XX:TieredStopAtLevel=1"      # short runs: do not spend CPU in the optimising JIT
-CHARS = ["", " ", "\t", '"', "'", "\\", "-", "$", "a", "é"]
+CHARS = ["", " ", "\t", '"', "'", "\\", "-", "$", "a", "é", "\u00a0"]
 
 PKGS = {   # package dir -> (package name, specific harness file)
     "internal/shellparse": ("shellparse", "zz_verif_c17_shellparse_test.go"),
@@ -202,8 +202,10 @@ def suites(tier, sd):
         # quick: from size `prune` on, only cases with hash = seed (mod `mod`) are extended; thorough: everything
         return {"PruneAt": 0 if th else prune, "Sel": 0 if th else sd % mod, "Mod": 1 if th else mod}
 
-    def shell(mode, maxlen=0, maxargs=0, arglen=0, prune=0, mod=1):
+    def shell(mode, maxlen=0, maxargs=0, arglen=0, prune=0, mod=1, nb=None):
         d = {"Mode": '"%s"' % mode, "MaxLen": maxlen, "MaxArgs": maxargs, "MaxArgLen": arglen}
+        if nb is not None:      # ShellSplit only: with the non-ASCII Unicode space as 10th character
+            d["WithNB"] = "TRUE" if nb else "FALSE"
         d.update(sel(prune, mod))
         return d
 
@@ -224,10 +226,13 @@ def suites(tier, sd):
         S.append(dict(name=name, module=module, consts=consts, invs=invs, pkg=pkg, test=test, neg=neg, cls=cls,
                       real=real, cost=cost, post=post))
 
-    add("shell-split", "ShellSplit", shell("split", maxlen=6, prune=4, mod=5), ["LawMalformed", "LawPlain", "EmitSplit"],
+    add("shell-split", "ShellSplit", shell("split", maxlen=6, prune=4, mod=5, nb=False), ["LawMalformed", "LawPlain", "EmitSplit"],
         "internal/shellparse", "TestVerifC17ShellSplit", neg_shell_split, cls_shell_split, cost=3)
-    add("shell-roundtrip-2x3", "ShellSplit", shell("roundtrip", maxargs=2, arglen=3, prune=5, mod=5), ["LawRoundTrip", "EmitRoundTrip"],
+    add("shell-roundtrip-2x3", "ShellSplit", shell("roundtrip", maxargs=2, arglen=3, prune=5, mod=5, nb=False), ["LawRoundTrip", "EmitRoundTrip"],
         "internal/shellparse", "TestVerifC17ShellRoundTrip", neg_shell_rt, cls_shell_rt, cost=3)
+    add("shell-split-unispace", "ShellSplit", shell("split", maxlen=5, prune=3, mod=3, nb=True),
+        ["LawMalformed", "LawPlain", "EmitSplit"],
+        "internal/shellparse", "TestVerifC17ShellSplit", neg_shell_split, cls_shell_split, cost=1)
     add("pkg-split", "PkgConfigSplit", shell("split", maxlen=6, prune=4, mod=5), ["LawNoLoss", "LawPartsStartWithDash", "EmitSplit"],
         "xtool/safesplit", "TestVerifC17PkgSplit", neg_pkg_split, cls_pkg_split, cost=3)
     add("pkg-roundtrip-2x3", "PkgConfigSplit", shell("roundtrip", maxargs=2, arglen=3, prune=5, mod=5), ["LawRoundTrip", "EmitRoundTrip"],
@@ -243,7 +248,7 @@ def suites(tier, sd):
     add("expand-dollar", "Expand", exp("dollar", 3 if th else 2), ["LawLiteralUntouched", "EmitDollar"],
         "xtool/env", "TestVerifC17Dollar", neg_dollar, cls_dollar, post=lambda cs: thin_dollar(cs, th, sd))
     if th:
-        add("shell-roundtrip-3x2", "ShellSplit", shell("roundtrip", maxargs=3, arglen=2), ["LawRoundTrip", "EmitRoundTrip"],
+        add("shell-roundtrip-3x2", "ShellSplit", shell("roundtrip", maxargs=3, arglen=2, nb=False), ["LawRoundTrip", "EmitRoundTrip"],
             "internal/shellparse", "TestVerifC17ShellRoundTrip", neg_shell_rt, cls_shell_rt, cost=3)
         add("pkg-roundtrip-3x2", "PkgConfigSplit", shell("roundtrip", maxargs=3, arglen=2), ["LawRoundTrip", "EmitRoundTrip"],
             "xtool/safesplit", "TestVerifC17PkgRoundTrip", neg_pkg_rt, cls_pkg_rt, cost=2)
@@ -255,14 +260,15 @@ def suites(tier, sd):
 
 
 def thin_dollar(cases, thorough, sd):
-    """every $(...) starts a process (~30 ms here): keep all command-free cases and all one-segment templates
-    (the representatives of the known class), and a seeded sample of the other templates with commands"""
+    """every $(...) starts a process (~30 ms here): keep all command-free cases, the one-segment command templates
+    with no variable set, and a seeded sample of the other templates with commands"""
     keep, rest = [], []
     for c in cases:
-        (keep if (not c["cmd"] or len(c["t"]) == 1) else rest).append(c)
+        plain = not c["cmd"] or (len(c["t"]) == 1 and c["a"] == [0] and c["b"] == [0])
+        (keep if plain else rest).append(c)
     rnd = random.Random(sd)
     rnd.shuffle(rest)
-    return keep + rest[:(1500 if thorough else 60)]
+    return keep + rest[:(1500 if thorough else 80)]
 
 
 # --------------------------------------------------------------------------- machinery
@@ -337,7 +343,7 @@ def run_suite(chk, s, testbins, workers):
         raise C.Undecided("%s emitted no cases" % name)
     if s["post"]:
         cases = s["post"](cases)
-    nposix = posix_selfcheck(chk, cases) if s["name"] == "shell-split" else 0
+    nposix = posix_selfcheck(chk, cases) if s["name"].startswith("shell-split") else 0
     neg = s["neg"](cases)
     if neg is None:
         raise C.Undecided("%s: no case suitable for the negative control" % name)
@@ -451,18 +457,24 @@ def check(chk):
     chk.cov["suites"] = per_suite
     chk.cov["exhaustive"] = thorough
     chk.cov["rule"] = (
-        "cases = TLC enumerations: every string over {space,tab,\",',\\,-,$,a,e-acute} of length <= 6 for Parse and "
-        "SplitPkgConfigFlags; every argument list (<= 2 args x <= 3 chars; thorough also <= 3 x <= 2) quoted by the documented "
+        "cases = TLC enumerations: every string over {space,tab,\",',\\,-,$,a,M} of length <= 6 for Parse and "
+        "SplitPkgConfigFlags, M = any multi-byte letter, each case replayed with M = e-acute, a-grave (C3 A0), A-ring (C3 85), "
+        "ellipsis (E2 80 A6) (quoted round trips also with U+00A0 / U+0085); every string of length <= 5 over that alphabet plus a "
+        "non-ASCII Unicode space (U+00A0 and U+0085) for Parse; every argument list (<= 2 args x <= 3 chars; thorough also <= 3 x <= 2) quoted by the documented "
         "producers; every `+build` line of <= 2 options x <= 3 terms (thorough also 3 x 2) over 3 tags x all 8 tag sets, in both "
         "-tags spellings and separators; every go:build tree of depth <= 2 (thorough: + one more level) for the validation of the "
         "spec; every flag list of <= 3 elements for -tags; every {key} template of <= 4 segments x values x defaults, each run 32 "
-        "times with both map insertion orders; every $VAR/${VAR}/$(cmd) template of <= 3 (quick 2) segments x values. quick keeps "
-        "the cases whose hash is VERIF_SEED mod 8. non-trivial = result differs from the trivial one (words/parts present, truth "
+        "times with both map insertion orders; every $VAR/${VAR}/$(cmd) template of <= 3 (quick 2) segments x values of A (8, incl. $B, ${B}, "
+        "$(pkg-config ..), $(other), lone $) and B (4). quick extends, from a suite-specific size on, only the cases whose hash is "
+        "VERIF_SEED modulo 3..8 (random subtrees), thorough everything. non-trivial = result differs from the trivial one (words/parts present, truth "
         "table not constant, expansion changes the text), measured by the replay")
     chk.assumptions += [
         "dialect of shellparse.Parse taken from its comments and example table: backslash is special only inside double quotes "
         "before \" or \\; where the documentation is silent (backslash outside quotes, \\$ in double quotes) both the literal and "
         "the POSIX sh reading are accepted, nothing else; touching quoted/unquoted pieces form one word (POSIX, doc silent)",
+        "U+00A0 / U+0085 outside quotes: the documentation says only 'spaces'; the unchanged code splits at every unicode.IsSpace "
+        "rune, POSIX sh does not: both accepted (the unchanged code takes the first); inside quotes they are literal; for "
+        "SplitPkgConfigFlags only space and tab are blanks (doc: 'space'), U+00A0 is not enumerated there",
         "pkg-config grammar taken from the doc comment and example table of safesplit (incl. the table-only rule that an "
         "unescaped blank inside the content is kept as one space); a backslash before a non-blank: literal or quoting, both accepted",
         "/repo has no evaluator of //go:build of its own; those cases validate TagExpr.tla against go/build/constraint only; "
